@@ -22,3 +22,4 @@ def check(A):
         R.queue_unbounded_rule(A, fl, 'C16')
         R.sweep_complete_rule(A, fl, 'C16')
         R.idle_guard_rule(A, fl, 'C16')
+        R.last_ping_writers_rule(A, fl, 'C16')
